@@ -189,7 +189,7 @@ type Sched struct {
 	err        error
 	preempts   int
 	Finalizers int
-	addrSt     map[unsafe.Pointer]*Stamp
+	addrSt     map[unsafe.Pointer]*addrState
 }
 
 // S is the scheduler of the execution currently in progress (nil outside one).
